@@ -96,7 +96,7 @@ def run(F, rep, tier, allfacts):
                 okg = side is not None and oob[0] in cfg.reachable_incl(side) and cps[0][0] not in cfg.reachable_incl(side) and cfg.dominates(g["bb"], cps[0][0])
         rep.check(okg and bool(knf), "SHAPE-read", "%s:read_exact:end>len->OutOfBounds" % tab, where,
                   "read_exact must fail with OutOfBounds exactly when offset + buf.len() > value length, before copying")
-        rng = [[describe(f, o, depth=8) for o in rv[3]] for i, j, p, rv, line in assignments(f) if rv[0] == "agg" and rv[1] == "std::ops::Range"]
+        rng = [[describe(f, o, depth=8) for o in rv[3]] for i, j, p, rv, line in assignments(f) if rv[0] == "agg" and rv[1].endswith("ops::range::Range")]
         rep.check(len(cps) == 1 and cps[0][1][0] == "arg:buf" and ["arg:offset", "call:saturating_add(arg:offset,call:len(arg:buf))"] in rng, "SHAPE-read",
                   "%s:read_exact:copies[offset..offset+len]" % tab, where, "read_exact must copy data[offset..offset+buf.len()] into buf; ranges %s" % rng)
         f = FT.fn(items["read_zerofill"])
